@@ -1,10 +1,20 @@
 #!/bin/bash
-# Re-runs every kept seeded change against the check that is recorded as catching it (regression of detection).
-# usage: reseed.sh [id-glob]   ; prints one line per seed: id detector exit (1 = caught)
-cd /verif
+# Re-runs every kept seeded change against the check recorded as catching it (regression of detection).
+# usage: reseed.sh [id-glob]   ; one line per seed: id detector exit (1 = caught).
+# Under `vp run --with-repo -- tools/reseed.sh` it works on the snapshot of /verif and on a private copy of the
+# repository snapshot ($VP_RUN_REPO), so neither /repo nor /verif is touched.
+V=$(cd "$(dirname "$0")/.." && pwd)
+cd $V
+if [ -n "$VP_RUN_REPO" ]; then
+  export BKSIM_REPO=$(mktemp -d /tmp/reseed-repo.XXXXXX)
+  rsync -a --exclude .git "$VP_RUN_REPO"/ $BKSIM_REPO/
+  trap 'rm -rf '$BKSIM_REPO EXIT
+  export BKSIM_EVIDENCE_DIR=$V/mutant-evidence
+  [ -x bin/simrewrite ] || ./setup.sh >/dev/null 2>&1
+fi
 for d in seeded/${1:-*}/; do
   id=$(basename $d); det=$(jq -r .detector_property $d/meta.json)
-  out=$(tools/trymutant.sh /verif/$d/patch.diff $det 2>&1)
+  out=$(tools/trymutant.sh $V/$d/patch.diff $det 2>&1)
   line=$(echo "$out" | grep -E "^== $det" | cut -c1-60)
   top=$(echo "$out" | grep -E "oracle=" | head -1 | sed 's/^ *//' | cut -c1-120)
   echo "$id $line | $top"
